@@ -9,6 +9,8 @@
  *   byname <k> <hexname>   -> ok <called:SYM|unknown|fault> <doesNameExist 0/1> <getIdFromName>
  *   dispatch out <hexname> -> ok <called:SYM|unknown|fault> <1 iff the output got the message and CFG->output_arg | ->
  *                             (snoopy_outputregistry_dispatch with CFG->output = name; snoopy_configuration_get is provided here)
+ *   dispatchs out <hexname> -> the same with CFG->output at one fixed address whose content changes from case to case
+ *   chain flt <e1,e2,...>  -> ok <implementations run by snoopy_filtering_check_chain("e1;e2:a;e3;..."), in order | []>
  *   byid   <k> <int>       -> ok <called:SYM|unknown|fault> <getName or ~>
  *   count  <k>             -> ok <getCount>
  *   gid <hexlist> <hexname> / gcount <hexlist> / gname <hexlist> <i> / gidexist <hexlist> <i> / gnameexist <hexlist> <hexname>
@@ -22,10 +24,13 @@
 #include "outputregistry.h"
 
 #include "configuration.h"
+#include "filtering.h"
 
 extern const char *verif_last_called;
 extern int verif_calls;
 extern const void *verif_last_a0, *verif_last_a1;     /* output stubs: the logMessage and arg pointers they were handed */
+extern char verif_log[8192];                           /* every stub appends its name: the sequence of implementations that ran */
+extern int verif_stub_ret;                             /* what the stubs return (SNOOPY_FILTER_PASS while a chain is walked) */
 
 /* the configuration the registries see (outputregistry.c: dispatch reads CFG->output / CFG->output_arg) */
 static snoopy_configuration_t verif_cfg;
@@ -41,7 +46,7 @@ static const char *plain(const char *s) { return s == NULL ? "~" : (*s ? s : "-"
 
 static void handle(int nf, char **f, FILE *o) {
     char buf[256];
-    verif_last_called = NULL; verif_calls = 0;
+    verif_last_called = NULL; verif_calls = 0; verif_log[0] = 0; verif_stub_ret = 0;
     if (!strcmp(f[0], "byname") && nf >= 3) {
         vbytes n = parse_bytes(f[2]);
         int ret, ex, id;
@@ -59,6 +64,31 @@ static void handle(int nf, char **f, FILE *o) {
         fputs("ok\t", o); outcome(o, ret);
         if (verif_calls == 1) fprintf(o, "\t%d", (verif_last_a0 == (const void *)msg && verif_last_a1 == (const void *)arg) ? 1 : 0);
         else fputs("\t-", o);
+    } else if (!strcmp(f[0], "dispatchs") && nf >= 3) {
+        /* as dispatch, but CFG->output stays at ONE address for the whole sequence of cases and only its content changes
+         * (a configuration string re-read into the same storage): the lookup must follow the content */
+        static char outbuf[1024]; static char msg[] = "the message", arg[] = "the-arg";
+        vbytes n = parse_bytes(f[2]);
+        snprintf(outbuf, sizeof outbuf, "%s", n.p);
+        verif_cfg.output = outbuf; verif_cfg.output_arg = arg;
+        verif_last_a0 = verif_last_a1 = NULL;
+        int ret = snoopy_outputregistry_dispatch(msg);
+        fputs("ok\t", o); outcome(o, ret);
+        if (verif_calls == 1) fprintf(o, "\t%d", (verif_last_a0 == (const void *)msg && verif_last_a1 == (const void *)arg) ? 1 : 0);
+        else fputs("\t-", o);
+    } else if (!strcmp(f[0], "chain") && nf >= 3) {
+        /* snoopy_filtering_check_chain over "e1:a;e2;e3:a;..." with every (stub) filter answering PASS */
+        char chain[4000]; size_t len = 0; chain[0] = 0;
+        if (strcmp(f[2], "[]")) {
+            char *dup = strdup(f[2]), *save = 0; int k = 0;
+            for (char *tok = strtok_r(dup, ",", &save); tok; tok = strtok_r(0, ",", &save), k++)
+                len += (size_t)snprintf(chain + len, sizeof chain - len, "%s%s%s", k ? ";" : "", tok, (k & 1) ? ":a" : "");
+            free(dup);
+        }
+        verif_stub_ret = SNOOPY_FILTER_PASS;
+        (void)snoopy_filtering_check_chain(chain);
+        verif_stub_ret = 0;
+        fprintf(o, "ok\t%s", verif_log[0] ? verif_log : "[]");
     } else if (!strcmp(f[0], "byid") && nf >= 3) {
         int i = atoi(f[2]), ret; const char *nm;
         if (!strcmp(f[1], "ds")) { ret = snoopy_datasourceregistry_callById(i, buf, sizeof buf, ""); nm = snoopy_datasourceregistry_getName(i); }
